@@ -31,7 +31,7 @@ for d in dirs:
                         'stdout': c.stdout[-1500:]})
     print('%-10s %s' % (os.path.basename(d), ' | '.join(line)), flush=True)
     subprocess.run(['git', '-C', WT, 'checkout', '-q', '--', '.'], check=True)
-rp = os.path.join(V, 'seeded', 'eval_results.json')
+rp = os.environ.get('EVAL_RESULTS') or os.path.join(V, 'seeded', 'eval_results.json')
 try:
     prev = json.load(open(rp))
 except Exception:
